@@ -51,3 +51,45 @@ async fn replay_c11_every_transaction_sealed() {
     for f in &failures { println!("FAILING-INPUT property=C11 {}", f); }
     assert!(failures.is_empty(), "C11 violated on the real code: {:?}", failures);
 }
+
+/// C08 / C11 / C12 mirror on the REAL `Processor`: a digest is announced to the consensus only after its batch is in the store, also when
+/// the store's command queue is backlogged at that moment (seed C08e wrapped the write in a timeout and announced the digest anyway).
+#[tokio::test]
+async fn replay_c08_processor_stores_before_announcing() {
+    use crate::processor::Processor;
+    use ed25519_dalek::{Digest as _, Sha512};
+    use std::convert::TryInto as _;
+    let path = ".db_verif_replay_c08_processor";
+    let _ = std::fs::remove_dir_all(path);
+    let mut store = store::Store::new(path).unwrap();
+    let (tx_batch, rx_batch) = channel(10);
+    let (tx_digest, mut rx_digest) = channel(10);
+    Processor::spawn(store.clone(), rx_batch, tx_digest);
+    let mut failures = Vec::new();
+    for round in 0..3u8 {
+        // backlog: 400 writers from other handles, each holding the (single-threaded) runtime for a moment after its write was accepted
+        for i in 0..400u32 {
+            let mut s = store.clone();
+            tokio::spawn(async move {
+                s.write(vec![9, round, (i >> 8) as u8, i as u8], vec![0u8; 16]).await;
+                std::thread::sleep(std::time::Duration::from_millis(1));
+            });
+        }
+        tokio::task::yield_now().await;
+        let batch: Vec<u8> = (0..64u8).map(|b| b ^ round).collect();
+        tx_batch.send(batch.clone()).await.unwrap();
+        let expected = crypto::Digest(Sha512::digest(&batch).as_slice()[..32].try_into().unwrap());
+        match timeout(Duration::from_secs(20), rx_digest.recv()).await {
+            Ok(Some(d)) if d == expected => {
+                // the consensus may use the digest from now on: a read issued now must find the batch
+                match store.read(d.to_vec()).await {
+                    Ok(Some(v)) if v == batch => (),
+                    other => failures.push(format!("store backlogged by 400 queued writes: digest announced, but read returns {:?}", other.map(|o| o.map(|v| v.len())))),
+                }
+            }
+            other => failures.push(format!("processor announced {:?} instead of the batch's digest", other.map(|o| o.is_some()))),
+        }
+    }
+    for f in failures.iter().take(3) { println!("FAILING-INPUT property=C08 {}", f); }
+    assert!(failures.is_empty(), "processor announces digests of batches that are not stored: {:?}", failures);
+}
